@@ -72,6 +72,24 @@ var seeds = []string{
 	"a: null | bool\nb: a & true\nc: !b\n",
 }
 
+// multiErr: several errors of the same kind in one scope. Error lists that
+// are collected by ranging over a Go map come out in a different order on
+// every run.
+var multiErr = []string{
+	"x: {let a = 1, let b = 2, let c = 3, y: 1}\n",
+	"let a = 1\nlet b = 2\nlet c = 3\ny: 1\n",
+	"x: {let a = 1, let b = 2, let c = 3, let d = 4, y: 1}\nz: {let e = 1, let f = 2, w: 1}\n",
+	"a: 1 & 2\nb: \"x\" & 1\nc: true & null\n",
+	"a: {x: 1 & 2, y: 3 & 4, z: 5 & 6}\n",
+	"l: [1 & 2, 3 & 4, 5 & 6]\n",
+	"b: {}\na: b.c\nd: b.e\nf: b.g\n",
+	"#D: {x: int}\na: #D & {p: 1, q: 2, r: 3}\n",
+	"a: {x!: int, y!: int, z!: int}\nb: a & {}\n",
+	"a: {[=~\"^x\"]: int, [=~\"x$\"]: string, x: true}\n",
+	"import \"strings\"\nimport \"list\"\nimport \"math\"\na: 1\n",
+	"a: *1 | *2 | *3\nb: a + 1\nc: a + 2\n",
+}
+
 func run(r *core.Run) {
 	ch := core.NewChild("c02", 30*time.Second)
 	defer ch.Close()
@@ -113,6 +131,18 @@ func run(r *core.Run) {
 		})
 	}
 	matrix(r, ch)
+	r.Section(fmt.Sprintf("programs with several errors of one kind in one scope (%d programs, pipeline x12): the order and the text of the errors must not vary", len(multiErr)))
+	for _, src := range multiErr {
+		if !r.Mine() {
+			continue
+		}
+		c := kase{Src: src, From: "multi-error"}
+		r.Guard(c, func() {
+			for i := 0; i < 3; i++ {
+				check(r, ch, c)
+			}
+		})
+	}
 	r.Section("bytes<=2")
 	for l := 0; l <= 2; l++ {
 		gen.Tuples(l, 256, func(ix []int) bool {
